@@ -269,8 +269,8 @@ func CompactJSON(input, output []byte) []byte {
 			// Skip over whitespace.
 			continue
 		}
-		if c == '-' && input[i] == '0' {
-			// Negative 0 is changed to '0', skip the '-'.
+		if c == '-' && input[i] == '0' && !(i+1 < len(input) && (input[i+1] == '.' || input[i+1] == 'e' || input[i+1] == 'E')) {
+			// Negative 0 is changed to '0', skip the '-'. (-0.5 and -0e1 keep their sign.)
 			continue
 		}
 		// Add the non-whitespace character to the output.
